@@ -127,7 +127,11 @@ def key_order(ctx):
     keys = [n for n in ast.walk(ig.node) if isinstance(n, ast.DictComp)]
     if not keys or not isinstance(keys[0].key, ast.Tuple):
         raise AnalysisError('infer_geometry: dictionary comprehension keyed by a tuple not found')
-    codes = [U(e.slice) for e in keys[0].key.elts if isinstance(e, ast.Subscript)]
+    codes = []
+    for e in keys[0].key.elts:
+        if isinstance(e, ast.Subscript):
+            c = TB.tracefield_code(P, ig, e.slice)
+            codes.append(str(c) if c is not None else U(e.slice))
     if codes == ['189', '193']:
         ctx.ok('C08.2', ig, keys[0], 'key = (h[189], h[193]) = (inline, crossline)')
     else:
